@@ -6,6 +6,7 @@
      "plain"     ASCII that needs no escaping          "markup"   < > &          "quote"  ' "
      "ws"        TAB LF CR (legal C0 controls)         "nonascii" any legal character above 0x7F
      "nl"        LF where it matters: XhtmlStream.charactersWithBr() writes text with every LF replaced by <br/>
+     "cr"        the other line-boundary characters (CR, NEL U+0085, LS U+2028, PS U+2029): ordinary text for charactersWithBr
      "ctl"       any other C0 control (NOT an XML 1.0 character)
      "nonchar"   U+FFFE, U+FFFF, lone surrogates (NOT XML 1.0 characters)
    A string is a sequence of classes.  Tokens written for a character:
@@ -32,14 +33,14 @@ Representable(c) == c \notin {"ctl", "nonchar"}
 (* XmlStream._encode *)
 Encode(c) == CASE c = "plain" -> [t |-> "raw", c |-> c]
                [] c \in {"markup", "quote"} -> [t |-> "ent", c |-> c]
-               [] c \in {"ws", "nl"} -> [t |-> "cref", c |-> c]
+               [] c \in {"ws", "nl", "cr"} -> [t |-> "cref", c |-> c]
                [] c = "nonascii" -> [t |-> "cref", c |-> c]
                [] OTHER -> IF F7 THEN [t |-> "cref", c |-> c]            \* &#001; : illegal reference (finding F7)
                            ELSE [t |-> "cref", c |-> "repl"]       \* not an XML character: replaced
 EncodeStr(s) == [i \in 1..Len(s) |-> Encode(s[i])]
 (* what an XML parser makes of a token *)
 TokenLegal(tok) == /\ tok.t \in {"raw", "ent", "cref"}
-                   /\ tok.c \in {"plain", "markup", "quote", "ws", "nl", "nonascii", "repl"}
+                   /\ tok.c \in {"plain", "markup", "quote", "ws", "nl", "cr", "nonascii", "repl"}
                    /\ (tok.t = "raw" => tok.c \in {"plain", "nonascii"})      \* raw markup/quote/ws would be misparsed
 Decode(tok) == tok.c
 Meaning(s) == [i \in 1..Len(s) |-> IF Representable(s[i]) THEN s[i] ELSE "repl"]
